@@ -65,11 +65,16 @@ type Step struct {
 	NewSpec *SysSpec `json:"new_spec,omitempty"`
 
 	// crash / fault / concurrency fields are added by the worlds that use them
-	Image   string   `json:"image,omitempty"`    // crash: kill | powerloss
-	ImgSeed int64    `json:"img_seed,omitempty"` // power-loss draw
-	Tasks   [][]Step `json:"tasks,omitempty"`    // concurrent block
-	Sched   []int    `json:"sched,omitempty"`    // scheduling choices
-	Armed   []string `json:"armed,omitempty"`    // armed point label prefixes
+	Image          string   `json:"image,omitempty"`            // crash: kill | powerloss
+	ImgSeed        int64    `json:"img_seed,omitempty"`         // power-loss draw
+	Tasks          [][]Step `json:"tasks,omitempty"`            // concurrent block
+	Sched          []int    `json:"sched,omitempty"`            // scheduling choices
+	Armed          []string `json:"armed,omitempty"`            // armed point label prefixes
+	IDLits         []string `json:"ids,omitempty"`              // W-conc: literal message ids
+	CrashAt        *int     `json:"crash_at,omitempty"`         // W-conc: crash at the n-th disk operation of the block
+	CrashStep      *int     `json:"crash_step,omitempty"`       // W-conc: crash before the k-th scheduling decision of the block
+	CrashAfterTask *int     `json:"crash_after_task,omitempty"` // W-conc: crash at the instant task i has finished while another is in a call
+	Sweep          bool     `json:"sweep,omitempty"`            // W-conc: run every single-preemption schedule
 }
 
 // Fault: "at the n-th hit of site <Site> (after step AfterStep began), do Action".
@@ -109,6 +114,33 @@ func (p *Program) Shape() string {
 		s += "," + st.Op
 		if st.Op == "mcpgate" || st.Op == "mcpapply" {
 			s += fmt.Sprintf("(%s,%v,%d,%q)", st.Route, st.Pad, st.Batch, st.Reason)
+		}
+		if st.Op == "conc" {
+			for _, tk := range st.Tasks {
+				s += "["
+				for _, o := range tk {
+					s += o.Op + " "
+				}
+				s += "]"
+			}
+			if st.CrashAt != nil {
+				s += "crash@disk:" + st.Image
+			}
+			if st.CrashStep != nil {
+				s += "crash@step:" + st.Image
+			}
+			if st.CrashAfterTask != nil {
+				s += "crash@done:" + st.Image
+			}
+			if st.Sweep {
+				s += "sweep:" + st.Image
+			}
+			if st.CrashAfterTask != nil {
+				s += "crash@done:" + st.Image
+			}
+			if st.Sweep {
+				s += "sweep:" + st.Image
+			}
 		}
 		if st.Op == "filecase" {
 			s += fmt.Sprintf("(%s,%s,%d,%v)", st.Route, st.Reason, st.Batch, st.Pad)
